@@ -3,7 +3,7 @@
 //               RADIXP R n i0 i1 ...    -> pointers &pool[i] sorted, printed as indexes
 // The oracle (python: sorted(), and "every run of > 2 equal codes was handed to groupFunc exactly") is independent of Coq.
 #include "private_access.h"
-#include "momo/RadixSorter.h"
+#include "momo/HashSorter.h"
 using namespace momo;
 typedef unsigned long long ull;
 
@@ -41,10 +41,44 @@ static void run_ptr(std::istream& is, size_t n)
 	printf("%s|\n", os.str().c_str());
 }
 
+// RSORT R W g n (code id)* : RadixSorter<R> on W-bit codes of (code,id) items with a logging iterSwapper and, if g = 1, the
+// group callback of HashSorter::pvSort (pvGroup for count > 2).  Output: final arrangement | swap trace
+struct RItem { uint64_t code; long long id; };
+template<size_t R, typename T>
+static void run_rsort(std::istream& is, bool g, size_t n)
+{
+	std::vector<RItem> v(n);
+	for (size_t i = 0; i < n; ++i) { ull c; long long id; is >> c >> id; v[i] = RItem{ uint64_t(T(c)), id }; }
+	RItem* b = v.data();
+	std::vector<long long> log;
+	auto codeGetter = [] (RItem* it) { return T(it->code); };
+	auto swapper = [b, &log] (RItem* x, RItem* y) { log.push_back((x - b) * 100000 + (y - b)); std::iter_swap(x, y); };
+	auto eq = [] (const RItem& x, const RItem& y) { return x.id == y.id; };
+	auto groupFunc = [g, &eq, &swapper] (RItem* p, size_t c) { if (g && c > 2) HashSorter::pvGroup(p, c, eq, swapper); };
+	internal::RadixSorter<R>::Sort(b, n, codeGetter, swapper, groupFunc);
+	std::ostringstream os;
+	for (size_t i = 0; i < n; ++i) os << ull(b[i].code) << " " << b[i].id << " ";
+	os << "| ";
+	if (log.size() <= 48) { for (size_t i = 0; i < log.size(); ++i) os << (i ? "," : "") << log[i]; }
+	else { long long d = 0; for (long long t : log) d = (d * 1000003 + t) % 1000000007LL; os << log.size() << ":" << d; }
+	printf("%s\n", os.str().c_str());
+}
+
 template<size_t R>
 static void run_r(const std::string& cmd, std::istream& is)
 {
 	if (cmd == "RADIXP") { size_t n; is >> n; run_ptr<R>(is, n); return; }
+	if (cmd == "RSORT")
+	{
+		size_t w, g, n; is >> w >> g >> n;
+		switch (w) {
+		case 8: run_rsort<R, uint8_t>(is, g != 0, n); break;
+		case 16: run_rsort<R, uint16_t>(is, g != 0, n); break;
+		case 32: run_rsort<R, uint32_t>(is, g != 0, n); break;
+		case 64: run_rsort<R, uint64_t>(is, g != 0, n); break;
+		default: puts("?"); }
+		return;
+	}
 	size_t w, n; is >> w >> n;
 	switch (w) {
 	case 8: run_int<R, uint8_t>(is, n); break;
